@@ -137,8 +137,8 @@ def ratToFloat (q : Rat) : Float :=
   let s : Float := if q < 0 then -1.0 else 1.0
   s * Float.exp (ratLog (if q < 0 then -q else q))
 
-def validBreaks (T : Nat) (bps : List Nat) : Bool :=
-  bps.all (fun b => decide (1 ≤ b) && decide (b < T)) && (bps.zip bps.tail).all (fun (a, b) => decide (a < b))
+/-- the break points an object can hold (`Hmm.breaksOk`: `setBreakPoints` refuses the others) -/
+def validBreaks (T : Nat) (bps : List Nat) : Bool := breaksOk T bps
 
 def small (t : DTables) : Bool := t.n ^ t.T ≤ 3000
 
@@ -247,14 +247,7 @@ def postJudge (o : Obj) (m : List (List Float)) (rows : Option (List Nat)) : Str
       let t := o.tab
       if o.stale then "-" else
       if !t.nonneg then "-" else
-      if !validBreaks t.T o.bps then
-        -- outside the theorem's domain (recorded finding C13-invalid-breaks): setBreakPoints does not validate
-        -- its argument, forward and backward passes then reset at different positions
-        (match o.core with
-         | .resc _ =>
-           if m.all (fun r => r.all Float.isFinite) && !(m.all (fun r => sumsToOne o.logLik r))
-           then "FAIL:posterior_invalid_breaks" else "-"
-         | _ => "-") else
+      if !validBreaks t.T o.bps then "-" else   -- unreachable: setBreakPoints refuses such vectors
       -- double range: with emissions below 1e-100 forward entries underflow to 0 while backward entries
       -- overflow, and the product is NaN; rounding/overflow is outside the exact-arithmetic model
       if t.E.any (fun x => x > 0.0 && x < 1e-100) && m.any (fun r => r.any (fun x => x.isNaN || x.isInf)) then "-" else
@@ -514,17 +507,14 @@ def showOpt (x : Option (List Float)) : String := match x with | some l => hxs l
 def pijVerdict (tm : TM) (xs : List Float) : String :=
   let n := tm.n
   match tm with
-  | .auto _ =>
-    -- a single state: the matrix is [λ], not [1] (recorded finding C13-autocorr-one-state)
-    if n < 2 then (if stochasticRows n xs then "ok" else "FAIL:autocorr_one_state")
-    else if stochasticRows n xs then "ok" else "FAIL:autocorr_row_stochastic"
+  | .auto _ => if stochasticRows n xs then "ok" else "FAIL:autocorr_row_stochastic"
   | .full _ => if stochasticRows n xs then "ok" else "FAIL:full_matrix_row_stochastic"
 
 /-- verdict on an equilibrium vector, for the matrix `P` -/
 def eqVerdict (tm : TM) (P : List Float) (xs : List Float) : String :=
   let n := tm.n
   match tm with
-  | .auto _ => if n < 2 then "-" else if stationaryOf n P xs then "ok" else "FAIL:autocorr_stationary"
+  | .auto _ => if stationaryOf n P xs then "ok" else "FAIL:autocorr_stationary"
   | .full _ => if !stochasticRows n P then "-" else if stationaryOf n P xs (fullTol n P) then "ok" else "FAIL:full_stationary"
 
 def histTM (impl : List String) (spec : String) : String :=
@@ -745,7 +735,10 @@ def step (s : St) (op : List String) (impl : Option (List String)) : St × Strin
       | "val", [] => (s, hx (-o.logLik), "-")
       | "brk", bs =>
         match bs.mapM nat? with
-        | some bps => update s k o o.tab (.setBreaks bps) impl
+        | some bps =>
+          -- an invalid vector is refused and the object is unchanged (in particular not "stale")
+          if !(breaksOk o.tab.T bps) then (s, showAns (runOp o (.setBreaks bps)).2, "-")
+          else update s k o o.tab (.setBreaks bps) impl
         | none => (s, "bad-op", "-")
       | "setp", [name, v] =>
         match Hex.float? v with
